@@ -121,7 +121,11 @@ def _work(H, chunk):
         if text != canon:
             nontriv += 1
         try:
-            obj = sv.compile(text, namespaces=NS)
+            obj = common.guard(lambda: sv.compile(text, namespaces=NS), 20)
+        except common.CallTimeout:
+            viols.append(('%r|%r' % (canon, text), 'respelling %r of %r: compile() did not return within 20 s' % (text, canon),
+                          {'selector': canon, 'spelling': text, 'group': 'no termination ' + canon}))
+            continue
         except Exception as ex:
             viols.append(('%r|%r' % (canon, text), 'respelling %r of %r raised %s: %s' % (text, canon, type(ex).__name__, str(ex).split('\n')[0][:80]),
                           {'selector': canon, 'spelling': text, 'group': 'raise ' + canon}))
